@@ -258,3 +258,88 @@ package hpack
 //@   loop 1 invariant smallState(d) && emitOK(d) && len(d.saveBuf.view) == 0 && len(p) > 0 && len(d.buf) <= len(old(d.saveBuf.view)) + len(p) && d.buf == (old(d.saveBuf.view) ++ p)[len(old(d.saveBuf.view)) + len(p) - len(d.buf):]
 //@   loop 1 invariant (d.firstField ==> old(d.firstField)) && len(d.emitted) >= len(old(d.emitted)) && d.emitted[:len(old(d.emitted))] == old(d.emitted)
 //@   loop 1 invariant len(d.buf) == len(old(d.saveBuf.view)) + len(p) ==> d.firstField == old(d.firstField) && d.emitted == old(d.emitted) && d.dynTab.table.ents == old(d.dynTab.table.ents) && d.dynTab.size == old(d.dynTab.size) && d.dynTab.maxSize == old(d.dynTab.maxSize)
+
+//@ -- encoder ---------------------------------------------------------------------------------------------------
+//@ globalinv [C18:static-table-index-consistent] tabInv(staticTable)
+//@ -- a pending minimum is only kept while a size update is still owed to the peer (RFC 7541 4.2)
+//@ pure func encInv(e *Encoder) bool = dtInv(e.dynTab) && e.dynTab.table != staticTable && e.dynTab.size <= e.dynTab.maxSize && e.dynTab.maxSize <= e.maxSizeLimit && (!e.tableSizeUpdate ==> e.minSize == 4294967295) && (e.tableSizeUpdate ==> e.minSize <= e.dynTab.maxSize || e.minSize == 4294967295)
+
+//@ func encodeTypeByte :: indexing, sensitive -> b
+//@   props C18
+//@   assigns nothing
+//@   ensures [C18:representation-type-bits] b == ite(sensitive, 16, ite(indexing, 64, 0))
+
+//@ func appendVarInt :: dst, n, i -> out
+//@   props C18,C10
+//@   requires 1 <= n && n <= 8
+//@   assigns nothing
+//@   ensures [C18:integer-appended-after-existing-bytes] len(out) > len(dst) && out[:len(dst)] == dst
+//@   loop 1 invariant len(dst#1) > len(old(dst)) && dst#1[:len(old(dst))] == old(dst)
+
+//@ func appendTableSize :: dst, v -> out
+//@   props C18,C10
+//@   assigns nothing
+//@   ensures [C18:size-update-appended-after-existing-bytes] len(out) > len(dst) && out[:len(dst)] == dst
+
+//@ func appendIndexed :: dst, i -> out
+//@   props C18,C10
+//@   assigns nothing
+//@   ensures [C18:indexed-field-appended-after-existing-bytes] len(out) > len(dst) && out[:len(dst)] == dst
+
+//@ func (*Encoder).shouldIndex :: e, f -> r
+//@   props C18
+//@   requires e != nil && entSize(f) <= 4294967295
+//@   assigns nothing
+//@   ensures [C18:index-when-not-sensitive-and-fits] r <==> !f.Sensitive && entSize(f) <= e.dynTab.maxSize
+
+//@ func (*Encoder).searchTable :: e, f -> i, nameValueMatch
+//@   props C18,C10
+//@   requires e != nil && tabInv(e.dynTab.table) && e.dynTab.table != staticTable && idRoom(e.dynTab.table)
+//@   assigns nothing
+//@   ensures [C18:index-within-tables] i <= 61 + len(e.dynTab.table.ents) && (nameValueMatch ==> i > 0 && !f.Sensitive)
+//@   ensures [C18:static-index-names-the-field] 1 <= i && i <= 61 ==> staticTable.ents[i-1].Name == f.Name && (nameValueMatch ==> staticTable.ents[i-1].Value == f.Value)
+//@   ensures [C18:dynamic-index-names-the-field-as-the-decoder-resolves-it] i > 61 ==> e.dynTab.table.ents[len(e.dynTab.table.ents) - (i - 61)].Name == f.Name && (nameValueMatch ==> e.dynTab.table.ents[len(e.dynTab.table.ents) - (i - 61)].Value == f.Value)
+
+//@ func (*Encoder).SetMaxDynamicTableSize :: e, v
+//@   props C18
+//@   requires e != nil && encInv(e)
+//@   assigns e.minSize, e.tableSizeUpdate, e.dynTab.maxSize, e.dynTab.size, e.dynTab.table.ents, e.dynTab.table.evictCount, mapOf(e.dynTab.table.byName), mapOf(e.dynTab.table.byNameValue)
+//@   ensures [C18:size-clamped-to-limit] e.dynTab.maxSize == min(v, e.maxSizeLimit) && e.dynTab.size <= e.dynTab.maxSize
+//@   ensures [C18:update-owed-and-minimum-tracked] e.tableSizeUpdate && e.minSize == min(old(e.minSize), min(v, e.maxSizeLimit))
+//@   ensures encInv(e)
+
+//@ func (*Encoder).SetMaxDynamicTableSizeLimit :: e, v
+//@   props C18
+//@   requires e != nil && encInv(e)
+//@   assigns e.maxSizeLimit, e.tableSizeUpdate, e.dynTab.maxSize, e.dynTab.size, e.dynTab.table.ents, e.dynTab.table.evictCount, mapOf(e.dynTab.table.byName), mapOf(e.dynTab.table.byNameValue)
+//@   ensures [C18:limit-truncates-current-size] e.maxSizeLimit == v && e.dynTab.maxSize == min(old(e.dynTab.maxSize), v) && (old(e.dynTab.maxSize) > v ==> e.tableSizeUpdate)
+//@   ensures encInv(e) || (old(e.dynTab.maxSize) > v && old(e.minSize) != 4294967295 && old(e.minSize) > v)
+
+//@ func appendHpackString :: dst, s -> out
+//@   props C18,C10
+//@   trusted
+//@   assigns nothing
+//@   ensures len(out) > len(dst) && out[:len(dst)] == dst
+
+//@ func appendNewName :: dst, f, indexing -> out
+//@   props C18,C10
+//@   assigns nothing
+//@   ensures [C18:literal-with-new-name-starts-with-type-byte] len(out) > len(dst) + 2 && out[:len(dst)] == dst && out[len(dst)] == ite(f.Sensitive, 16, ite(indexing, 64, 0))
+
+//@ func appendIndexedName :: dst, f, i, indexing -> out
+//@   props C18,C10
+//@   assigns nothing
+//@   ensures [C18:literal-with-indexed-name-appended] len(out) > len(dst) + 1 && out[:len(dst)] == dst
+
+//@ func (*Encoder).WriteField :: e, f -> err
+//@   props C18,C10
+//@   requires e != nil && encInv(e) && e.w != nil
+//@   requires [C18:id-space-not-exhausted] idRoom(e.dynTab.table)
+//@   requires [C18:sizes-fit-32-bits] e.dynTab.size + entSize(f) <= 4294967295
+//@   assigns e.buf, e.tableSizeUpdate, e.minSize, written(e.w), e.dynTab.size, e.dynTab.table.ents, e.dynTab.table.evictCount, mapOf(e.dynTab.table.byName), mapOf(e.dynTab.table.byNameValue)
+//@   ensures [C18:owed-size-update-settled-and-minimum-forgotten] !e.tableSizeUpdate && e.minSize == 4294967295 && encInv(e)
+//@   ensures [C18:table-limit-untouched-by-fields] e.dynTab.maxSize == old(e.dynTab.maxSize)
+//@   ensures [C18:sensitive-fields-never-indexed] f.Sensitive ==> e.dynTab.table.ents == old(e.dynTab.table.ents)
+//@   ensures [C18:field-too-large-for-table-not-indexed] entSize(f) > e.dynTab.maxSize ==> e.dynTab.table.ents == old(e.dynTab.table.ents)
+//@   ensures [C18:at-most-one-entry-added-as-newest] e.dynTab.table.ents == old(e.dynTab.table.ents) || (len(e.dynTab.table.ents) >= 1 && e.dynTab.table.ents[len(e.dynTab.table.ents)-1] == f && !f.Sensitive)
+//@   ensures [C18:one-write-per-field] err == nil ==> written(e.w) == old(written(e.w)) ++ e.buf && len(e.buf) > 0
